@@ -436,9 +436,9 @@ def _make_simlink_class():
                     if guard is not None and not guard():
                         self.world.suppressed += 1
                         continue
-                    pk = CRTPPacket()
-                    pk.set_header(port, ch)
-                    pk.data = data
+                    # as the radio and USB drivers do it: the packet is built from the raw header byte of the frame; bits 2-3 of it
+                    # are link-level bits (sequence counters on a radio link, zero on USB) and mean nothing to the layers above
+                    pk = CRTPPacket(((port & 0xF) << 4) | ((len(self.rx_log) % 4) << 2) | (ch & 3), list(data))
                     self.rx_log.append((s.now, port, ch, bytes(data)))
                     self.order.append(('rx', len(self.rx_log) - 1))
                     r = self._count()
